@@ -383,6 +383,7 @@ class World:
                "res": out["res"], "log": out["log"], "reflog": ref["log"], "sigs": _sigs(out["calls"]),
                "stored_keys": [c[1] for c in out["calls"] if c[0] == "store_blob"], "same_exc": out["same_exc"],
                "ctx_clean": out["ctx_clean"], "kept": ref["kept"], "opts": op.get("opts", {}), "fail": op.get("fail"),
+               "early_loads": ref.get("early_loads", []),
                "inst": info["inst"], "mut": len(info["mutations"]), "snap_before": snap_before, "snap_after": snap_after,
                "nstore_calls": sum(1 for c in out["calls"] if c[0] == "store_blob"),
                "nsync_calls": sum(1 for c in out["calls"] if c[0] == "sync_paths"),
@@ -535,6 +536,8 @@ def _has_stage(stages, name):
 
 
 def _pyvalue(kind, value):
+    if kind == "pdict":
+        return dict((k, v) for k, v in value)
     if kind == "tuple":
         return tuple(value)
     if kind == "bytes":
